@@ -2092,6 +2092,109 @@ impl_send_and_sync_for_iterator! {
     ValuesLRUIterMut<'a, K, V>
 }
 
+// ---------------------------------------------------------------------------
+// Verification hooks (cargo feature `verif-hooks`, off by default).
+// ---------------------------------------------------------------------------
+#[cfg(feature = "verif-hooks")]
+impl<K, V, E, S> RawLRU<K, V, E, S> {
+    /// Structural audit used by an external simulator: walks the list in both
+    /// directions (at most `max_steps` nodes each way) and lists the index
+    /// entries by iterating the table. It never hashes or compares a key, so
+    /// it calls no user code. `is_live(addr, size)` is asked before a node is
+    /// dereferenced; a rejected node stops the walk and is reported.
+    /// `visit(addr, key, val)` is called for every node of the forward walk.
+    #[doc(hidden)]
+    pub fn verif_audit(
+        &self,
+        max_steps: usize,
+        is_live: &mut dyn FnMut(usize, usize) -> bool,
+        visit: &mut dyn FnMut(usize, &K, &V),
+    ) -> crate::verif::ListAudit {
+        let node_size = mem::size_of::<EntryNode<K, V>>();
+        let mut rep = crate::verif::ListAudit {
+            cap: self.cap,
+            map_len: self.map.len(),
+            node_size,
+            key_offset: 0,
+            head: self.head as usize,
+            tail: self.tail as usize,
+            ..Default::default()
+        };
+        for (k, node) in self.map.iter() {
+            rep.index.push((k.k as usize, node.as_ptr() as usize));
+        }
+        if !is_live(rep.head, node_size) {
+            rep.dead_node = Some(rep.head);
+            return rep;
+        }
+        if !is_live(rep.tail, node_size) {
+            rep.dead_node = Some(rep.tail);
+            return rep;
+        }
+        unsafe {
+            rep.key_offset = (*self.head).key.as_ptr() as usize - self.head as usize;
+            // forward walk
+            let mut cur = (*self.head).next;
+            loop {
+                if cur == self.tail {
+                    rep.forward_closed = true;
+                    break;
+                }
+                if rep.forward.len() >= max_steps || cur.is_null() || cur == self.head {
+                    break;
+                }
+                if !is_live(cur as usize, node_size) {
+                    rep.dead_node = Some(cur as usize);
+                    break;
+                }
+                rep.forward.push(cur as usize);
+                visit(cur as usize, &*(*cur).key.as_ptr(), &*(*cur).val.as_ptr());
+                cur = (*cur).next;
+            }
+            // backward walk
+            let mut cur = (*self.tail).prev;
+            loop {
+                if cur == self.head {
+                    rep.backward_closed = true;
+                    break;
+                }
+                if rep.backward.len() >= max_steps || cur.is_null() || cur == self.tail {
+                    break;
+                }
+                if !is_live(cur as usize, node_size) {
+                    rep.dead_node = Some(cur as usize);
+                    break;
+                }
+                rep.backward.push(cur as usize);
+                cur = (*cur).prev;
+            }
+        }
+        rep
+    }
+
+    /// Reads the key/value of the node at `addr`, which the caller has
+    /// established to be a live node of this list (e.g. an index entry).
+    ///
+    /// # Safety
+    /// `addr` must be the address of a live, initialised node of this list.
+    #[doc(hidden)]
+    pub unsafe fn verif_node_kv(&self, addr: usize) -> (&K, &V) {
+        let node = addr as *const EntryNode<K, V>;
+        (&*(*node).key.as_ptr(), &*(*node).val.as_ptr())
+    }
+}
+
+#[cfg(feature = "verif-hooks")]
+impl<K: Hash + Eq, V, E: OnEvictCallback, S: BuildHasher> RawLRU<K, V, E, S> {
+    /// Forces the hash index to re-hash every entry (grow, then shrink).
+    #[doc(hidden)]
+    pub fn verif_rehash(&mut self) {
+        let extra = self.map.capacity() * 2 + 16;
+        self.map.reserve(extra);
+        self.map.shrink_to_fit();
+    }
+}
+
 #[cfg(test)]
 mod tests {
     use super::RawLRU;
